@@ -118,6 +118,11 @@ impl RwLock {
 
             readers.remove(&thread_id);
 
+            // See `Mutex::release_lock`: the release is a DPOR access.
+            let path_id = execution.path.pos().saturating_sub(1);
+            let dpor_vv = execution.threads.active().dpor_vv;
+            Access::set_or_create(&mut state.last_access, path_id, &dpor_vv);
+
             if readers.is_empty() {
                 state.lock = None;
 
@@ -143,6 +148,11 @@ impl RwLock {
 
             // Establish sequential consistency between the lock's operations.
             execution.threads.seq_cst();
+
+            // See `Mutex::release_lock`: the release is a DPOR access.
+            let path_id = execution.path.pos().saturating_sub(1);
+            let dpor_vv = execution.threads.active().dpor_vv;
+            Access::set_or_create(&mut state.last_access, path_id, &dpor_vv);
 
             let thread_id = execution.threads.active_id();
 
